@@ -52,6 +52,8 @@ struct frame_table {
         errors.fetch_or(vf::MS_DOUBLE_FREE, std::memory_order_relaxed); // released twice / never handed out
     }
     int live() const { int c = 0; for (int i = 0; i < N; i++) if (slot[i].load(std::memory_order_relaxed)) c++; return c; }
+    // requested size of the live frame that starts at ptr (0 = none)
+    size_t size_at(char *ptr) const { for (int i = 0; i < N; i++) { uint64_t v = slot[i].load(std::memory_order_relaxed); if (v && ptr_of(v) == ptr) return size_of(v); } return 0; }
 };
 inline frame_table g_frames;
 inline std::atomic<long> g_frame_allocs{0}, g_frame_deallocs{0};
@@ -167,6 +169,24 @@ template <int N> int st_stack_call(std::size_t &state, c19_ctx &C, int id, bool 
     return f.wait();
 }
 
+// Two stack_storage objects on ONE shared size word that overlap in time (nested use): the outer one got its alloca buffer before the
+// inner call raised the size word. Its frame must still fit the memory it was really given (heap fallback otherwise).
+template <int NOUT, int NIN> std::string st_stack_nested(std::size_t &state, c19_ctx &C, int id) {
+    monitored<cocls::stack_storage> outer(state);
+    std::size_t given = outer;          // size of the buffer the outer storage gets
+    void *buf = alloca(given);
+    outer = buf;
+    bool h = false;
+    int vi = st_stack_call<NIN>(state, C, id + 1, h); // inner use on the same size word (may raise it through its heap fallback)
+    auto coro = st_body<monitored<cocls::stack_storage>, NOUT>(outer, C, id, nullptr);
+    std::string err;
+    size_t fsz = g_frames.size_at((char *)buf);
+    if (fsz && fsz + 1 > given) err = "frame of " + std::to_string(fsz) + " bytes was placed into a stack buffer of " + std::to_string(given) + " bytes (storage memory smaller than requested)";
+    cocls::future<int> f = coro.start();
+    if (err.empty() && (vi != id + 1 || f.wait() != id)) err = "nested stack storage coroutines returned wrong values";
+    return err;
+}
+
 inline cocls::async<int> st_warm_tls() { co_return 1; }
 inline void storage_sequences(const vf::opts &o, vf::report &R, uint64_t seqs) {
     vf::rng master(vf::mix(o.seed, 0x19));
@@ -206,6 +226,16 @@ inline void storage_sequences(const vf::opts &o, vf::report &R, uint64_t seqs) {
                 warmed[sc] = true; last_class = sc;
             }
             (void)last_class;
+            if (res.err.empty()) { // nested use with a fresh or partly warmed size word
+                std::size_t st2 = r.chance(1, 2) ? 0 : state / 2;
+                switch (r.below(4)) {
+                case 0: res.err = st_stack_nested<24, 90>(st2, C, 500); break;
+                case 1: res.err = st_stack_nested<90, 24>(st2, C, 500); break;
+                case 2: res.err = st_stack_nested<2, 29>(st2, C, 500); break;
+                default: res.err = st_stack_nested<29, 29>(st2, C, 500); break;
+                }
+                res.desc += "nested ";
+            }
             if (res.err.empty() && C.canary_bad.load()) res.err = "frame contents overwritten";
             if (res.err.empty() && g_frame_allocs.load() - fa0 != g_frame_deallocs.load() - fd0) res.err = "frames allocated != released";
             if (res.err.empty() && g_frames.errors.load() != e0) res.err = "frame monitor: " + vf::ms_errors_str(g_frames.errors.load());
